@@ -27,6 +27,7 @@ RULE = ('cases: pragmatic problem documents built from a valid base (1-3 jobs of
 TRUSTED = ['RFC 3339 parsing (time crate) is an oracle: every time string travels with the parse result the generator assigns to it; '
            'the generator only emits strings whose status is unambiguous (validated each run: a wrong mark shows up as a disagreement)',
            'serde deserialisation of the generated JSON into format/problem/model.rs types (the reduced document of the model is mapped to JSON by tools/props/c10.py::to_json)',
+           'create_transport_costs on supplied matrices is modelled (Model/Validation.v run_transport) and compared on a separate stream; which cells of a matrix truncated by a short errorCodes array are looked up later is not modelled',
            'rules of the relation / objective groups and E1502/E1503 are checked against a python reference (tools/props/c10.py), not against a Coq model',
            'tools/rules2coq.py (regex extraction of the rule tables from validation/*.rs and the error index page)']
 ASSUMPTIONS = ['documents of the proved fragment: no relations, objectives, clustering, recharges, skills, limits; coordinate locations, all distinct; integer-valued numbers; |demand| small (no i32 overflow)',
@@ -765,7 +766,14 @@ def c_doc(d):
                                     opt(d['resources'], lambda rs: lst(rs, string)))
 
 
+def c_matrix(m):
+    return '(mkMatrix %s %s %s %s)' % (opt(m.get('profile'), string), zlist(m['travelTimes']), zlist(m['distances']),
+                                       opt(m.get('errorCodes'), zlist))
+
+
 def model_term(c):
+    if c['op'] == 'matrix':
+        return 'run_transport %s %s' % (lst(c['doc']['profiles'], string), lst(c['matrices'], c_matrix))
     if c['op'] != 'doc':
         return None
     return ('let d := %s in (fst (run_validate d), snd (run_validate d), fst (run_read d), snd (run_read d), run_spec d, run_known d)'
@@ -1000,6 +1008,8 @@ def model_outcome(m):
 def compare(c, impl, model):
     if 'panic' in impl:
         return 'harness panicked outside catch_unwind: %s' % impl['panic']
+    if c['op'] == 'matrix':
+        return FULL.compare_matrix(c, impl, model)
     vk, vcs, rk, rcs, mspec, mknown = model
     mv, mr = (vk, vcs), (rk, rcs)
     d = c['doc']
